@@ -116,4 +116,335 @@ theorem encodeThreeOpds_indep (o1 o2 : Nat) (s : Instr) (r m v : Nat) (hm : m < 
     · rw [e]; exact h.2
   rw [getReg_indep o1 o2 _ m _ hb]
 
+
+/-! ### encode_special_opd, the dispatcher -/
+
+theorem farAdjust_opd (s : Instr) (r i : Nat) : (farAdjust s r).1.opd i = s.opd i := by
+  unfold farAdjust
+  split
+  · dsimp only; split <;> rfl
+  · rfl
+
+theorem rexBExt_opd (s : Instr) (m i : Nat) : (rexBExt s m).opd i = s.opd i := by
+  unfold rexBExt; split <;> rfl
+
+theorem encodeSpecialOpd_indep (o1 o2 : Nat) (s : Instr) (m i : Nat) (hm : m < 4) (h : MemPlain s m) :
+    encodeSpecialOpd o1 s m i = encodeSpecialOpd o2 s m i := by
+  unfold encodeSpecialOpd
+  have e := encodeMem_opd o2 s m hm h.1
+  rw [encodeMem_indep o1 o2 s m h.1]
+  dsimp only
+  split
+  · have hb : BaseOn ((encodeMem o2 s m).1.opd m) := by rw [e]; exact h.2
+    rw [getReg_indep o1 o2 _ m _ hb]
+  · split
+    · have hb : BaseOn ((farAdjust (encodeMem o2 s m).1 (rowAt s.key).singleReg).1.opd m) := by
+        rw [farAdjust_opd, e]; exact h.2
+      rw [getReg_indep o1 o2 _ m _ hb]
+    · rfl
+
+/-- same operands and addressing facts -/
+def AddrSame (a b : Instr) : Prop :=
+  a.opd0 = b.opd0 ∧ a.opd1 = b.opd1 ∧ a.opd2 = b.opd2 ∧ a.opd3 = b.opd3 ∧ a.sibDisp = b.sibDisp ∧
+  a.memDisp = b.memDisp
+
+theorem AddrSame.refl (a : Instr) : AddrSame a a := ⟨rfl, rfl, rfl, rfl, rfl, rfl⟩
+
+theorem AddrSame.trans {a b c : Instr} (h1 : AddrSame a b) (h2 : AddrSame b c) : AddrSame a c :=
+  ⟨h1.1.trans h2.1, h1.2.1.trans h2.2.1, h1.2.2.1.trans h2.2.2.1, h1.2.2.2.1.trans h2.2.2.2.1,
+   h1.2.2.2.2.1.trans h2.2.2.2.2.1, h1.2.2.2.2.2.trans h2.2.2.2.2.2⟩
+
+theorem AddrSame.opd {a b : Instr} (h : AddrSame a b) (i : Nat) : a.opd i = b.opd i := by
+  unfold Instr.opd
+  split
+  · exact h.1
+  · exact h.2.1
+  · exact h.2.2.1
+  · exact h.2.2.2.1
+  · rfl
+
+/-- no operand of the record can trigger the swap or the no-base rule -/
+def Plain (s : Instr) : Prop := ∀ i, i < 4 → MemPlain s i
+
+theorem Plain.of_same {a b : Instr} (h : AddrSame a b) (hb : Plain b) : Plain a := by
+  intro i hi
+  have := hb i hi
+  unfold MemPlain SwapOff at *
+  rw [h.opd i, h.2.2.2.2.1]
+  exact this
+
+theorem encodeImmNonDataTransfer_same (s : Instr) : AddrSame (encodeImmNonDataTransfer s) s := by
+  unfold encodeImmNonDataTransfer
+  dsimp only
+  repeat' split
+  all_goals exact ⟨rfl, rfl, rfl, rfl, rfl, rfl⟩
+
+theorem encodeImmOperation_same (s : Instr) : AddrSame (encodeImmOperation s) s := by
+  unfold encodeImmOperation
+  dsimp only
+  repeat' split
+  all_goals exact ⟨rfl, rfl, rfl, rfl, rfl, rfl⟩
+
+theorem encodeOffset_same (s : Instr) : AddrSame (encodeOffset s) s := by
+  unfold encodeOffset
+  repeat' split
+  all_goals exact ⟨rfl, rfl, rfl, rfl, rfl, rfl⟩
+
+theorem autoSetByte_same (s : Instr) : AddrSame (autoSetByte s) s := by
+  unfold autoSetByte
+  split <;> exact ⟨rfl, rfl, rfl, rfl, rfl, rfl⟩
+
+theorem immSelectAcc_same (s : Instr) : AddrSame (immSelectAcc s) s := by
+  unfold immSelectAcc
+  split
+  · exact encodeImmOperation_same s
+  · exact AddrSame.refl s
+
+theorem immTruncate_same (s : Instr) : AddrSame (immTruncate s) s := by
+  unfold immTruncate
+  dsimp only
+  repeat' split
+  all_goals exact ⟨rfl, rfl, rfl, rfl, rfl, rfl⟩
+
+/-! ### the mov-immediate option -/
+
+/-- the data-transfer immediate step cannot depend on the mov-immediate option: the destination is
+    memory, or a register narrower than 64 bits (whose row is the `b0+rd`/`b8+rd` one) -/
+def DtPlain (s : Instr) : Prop :=
+  s.memDisp = true ∨
+  (((s.opd0.reg &&& c_MODE_MASK) < c_reg64 ∨ c_MAX_UNSIGNED_32BIT < s.cons) ∧
+   ((rowAt s.key).enc = c_I ∨ (s.opd0.reg &&& c_MODE_MASK) ≤ c_noext8))
+
+theorem nasmRegisterSizeOptimize_narrow (s : Instr) (h : (s.opd0.reg &&& c_MODE_MASK) < c_reg64) :
+    nasmRegisterSizeOptimize s = s := by
+  unfold nasmRegisterSizeOptimize
+  have h1 : ((s.opd0.reg &&& c_MODE_MASK) == c_reg64) = false := by
+    rw [beq_eq_false_iff_ne]; intro e; rw [e] at h; exact Nat.lt_irrefl _ h
+  have h2 : ((s.opd0.reg &&& c_MODE_MASK) == c_ext64) = false := by
+    rw [beq_eq_false_iff_ne]; intro e; rw [e] at h; exact absurd h (by decide)
+  simp only [h1, h2, Bool.false_eq_true, if_false]
+
+
+theorem dtSelect_key (b : Bool) (s : Instr)
+    (h : (s.opd0.reg &&& c_MODE_MASK) < c_reg64 ∨ c_MAX_UNSIGNED_32BIT < s.cons)
+    (hm : s.memDisp = false) : dtSelect b s = s := by
+  unfold dtSelect
+  rcases h with h | h
+  · have hge : (decide ((s.opd0.reg &&& c_MODE_MASK) ≥ c_reg64)) = false := by
+      rw [decide_eq_false_iff_not]; exact Nat.not_le.mpr h
+    rw [nasmRegisterSizeOptimize_narrow s h]
+    simp only [hm, hge, Bool.and_false, Bool.or_false, Bool.false_eq_true, if_false, ite_self]
+  · rw [if_neg (Nat.not_le.mpr h)]
+
+theorem dtSelect_indep (b1 b2 : Bool) (s : Instr)
+    (h : s.memDisp = true ∨ (s.opd0.reg &&& c_MODE_MASK) < c_reg64 ∨ c_MAX_UNSIGNED_32BIT < s.cons) :
+    dtSelect b1 s = dtSelect b2 s := by
+  cases hmd : s.memDisp with
+  | true =>
+    unfold dtSelect
+    simp only [hmd, Bool.not_true, Bool.and_false, Bool.false_eq_true, if_false]
+  | false =>
+    rcases h with hm | h
+    · rw [hmd] at hm; exact absurd hm (by decide)
+    · rw [dtSelect_key b1 s h hmd, dtSelect_key b2 s h hmd]
+
+theorem nasmRegisterSizeOptimize_memDisp (s : Instr) : (nasmRegisterSizeOptimize s).memDisp = s.memDisp := by
+  unfold nasmRegisterSizeOptimize
+  dsimp only
+  repeat' split
+  all_goals rfl
+
+theorem dtSelect_memDisp (b : Bool) (s : Instr) : (dtSelect b s).memDisp = s.memDisp := by
+  unfold dtSelect
+  repeat' split
+  all_goals first | rfl | exact nasmRegisterSizeOptimize_memDisp s
+
+theorem dtOpOffset_indep (b1 b2 : Bool) (s : Instr)
+    (h : s.memDisp = true ∨ (rowAt s.key).enc = c_I ∨ (s.opd0.reg &&& c_MODE_MASK) ≤ c_noext8) :
+    dtOpOffset b1 s = dtOpOffset b2 s := by
+  unfold dtOpOffset
+  rcases h with hm | hI | hle
+  · simp only [hm, Bool.not_true, Bool.and_false, Bool.false_or]
+  · have hI' : ((rowAt s.key).enc == c_I) = true := by rw [hI]; rfl
+    simp only [hI', Bool.or_true]
+  · have hgt : (decide ((s.opd0.reg &&& c_MODE_MASK) > c_noext8)) = false := by
+      rw [decide_eq_false_iff_not]; exact Nat.not_lt.mpr hle
+    simp only [hgt, Bool.false_and]
+
+theorem encodeImmDataTransfer_indep (o1 o2 : Nat) (s : Instr) (h : DtPlain s) :
+    encodeImmDataTransfer o1 s = encodeImmDataTransfer o2 s := by
+  unfold encodeImmDataTransfer
+  dsimp only
+  split
+  · rfl
+  · generalize hx : ({ s with rdOffset := s.opd0.reg &&& c_VALUE_MASK } : Instr) = x
+    have hx0 : x.opd0 = s.opd0 := by rw [← hx]
+    have hxm : x.memDisp = s.memDisp := by rw [← hx]
+    have hxk : x.key = s.key := by rw [← hx]
+    have hxc : x.cons = s.cons := by rw [← hx]
+    cases hmd : s.memDisp with
+    | true =>
+      rw [dtSelect_indep (effNasm o1 x) (effNasm o2 x) x (Or.inl (hxm.trans hmd))]
+      exact dtOpOffset_indep _ _ _ (Or.inl ((dtSelect_memDisp _ x).trans (hxm.trans hmd)))
+    | false =>
+      rcases h with hm | ⟨hlt, hrow⟩
+      · rw [hmd] at hm; exact absurd hm (by decide)
+      · have hlt' : (x.opd0.reg &&& c_MODE_MASK) < c_reg64 ∨ c_MAX_UNSIGNED_32BIT < x.cons := by
+          rw [hx0, hxc]; exact hlt
+        rw [dtSelect_key _ x hlt' (hxm.trans hmd), dtSelect_key _ x hlt' (hxm.trans hmd)]
+        apply dtOpOffset_indep
+        right
+        rw [hxk, hx0]
+        exact hrow
+
+theorem dtSelect_same (b : Bool) (s : Instr)
+    (h : s.memDisp = true ∨ (s.opd0.reg &&& c_MODE_MASK) < c_reg64 ∨ c_MAX_UNSIGNED_32BIT < s.cons) :
+    AddrSame (dtSelect b s) s := by
+  cases hm : s.memDisp with
+  | false =>
+    rcases h with h | h
+    · rw [hm] at h; exact absurd h (by decide)
+    · rw [dtSelect_key b s h hm]; exact AddrSame.refl s
+  | true =>
+    rw [dtSelect_indep b false s (Or.inl hm)]
+    unfold dtSelect
+    simp only [Bool.false_and, Bool.false_eq_true, if_false]
+    repeat' split
+    all_goals exact ⟨rfl, rfl, rfl, rfl, rfl, rfl⟩
+
+theorem dtOpOffset_same (b : Bool) (s : Instr) : AddrSame (dtOpOffset b s) s := by
+  unfold dtOpOffset
+  split <;> exact ⟨rfl, rfl, rfl, rfl, rfl, rfl⟩
+
+theorem encodeImmDataTransfer_same (o : Nat) (s : Instr) (h : DtPlain s) :
+    AddrSame (encodeImmDataTransfer o s) s := by
+  unfold encodeImmDataTransfer
+  dsimp only
+  split
+  · exact ⟨rfl, rfl, rfl, rfl, rfl, rfl⟩
+  · have h' : s.memDisp = true ∨ (s.opd0.reg &&& c_MODE_MASK) < c_reg64 ∨ c_MAX_UNSIGNED_32BIT < s.cons := by
+      rcases h with h | h
+      · exact Or.inl h
+      · exact Or.inr h.1
+    refine (dtOpOffset_same _ _).trans ((dtSelect_same _ _ ?_).trans ⟨rfl, rfl, rfl, rfl, rfl, rfl⟩)
+    exact h'
+
+/-- the class step of encode_imm does not read the mov-immediate option, or reads it where it
+    cannot matter -/
+def ClassPlain (s : Instr) : Prop := typeIs s.key c_DATA_TRANSFER = false ∨ DtPlain s
+
+theorem immByClass_indep (o1 o2 : Nat) (s : Instr) (h : ClassPlain s) : immByClass o1 s = immByClass o2 s := by
+  unfold immByClass
+  dsimp only
+  split
+  · rfl
+  · split
+    · rfl
+    · split
+      · rfl
+      · split
+        · rename_i hdt
+          rcases h with h | h
+          · rw [h] at hdt; exact absurd hdt (by decide)
+          · exact encodeImmDataTransfer_indep o1 o2 s h
+        · rfl
+
+theorem immByClass_same (o : Nat) (s : Instr) (h : ClassPlain s) : AddrSame (immByClass o s) s := by
+  unfold immByClass
+  dsimp only
+  split
+  · exact ⟨rfl, rfl, rfl, rfl, rfl, rfl⟩
+  · split
+    · split <;> split <;> exact ⟨rfl, rfl, rfl, rfl, rfl, rfl⟩
+    · split
+      · exact encodeImmNonDataTransfer_same s
+      · split
+        · rename_i hdt
+          rcases h with h | h
+          · rw [h] at hdt; exact absurd hdt (by decide)
+          · exact encodeImmDataTransfer_same o s h
+        · exact AddrSame.refl s
+
+/-- encode_imm cannot depend on the mov-immediate option for this record -/
+def ImmPlain (s : Instr) : Prop := s.imm = false ∨ ClassPlain (immSelectAcc s)
+
+theorem encodeImm_indep (o1 o2 : Nat) (s : Instr) (h : ImmPlain s) : encodeImm o1 s = encodeImm o2 s := by
+  unfold encodeImm
+  rcases h with h | h
+  · simp only [h, Bool.not_false, if_true]
+  · split
+    · rfl
+    · split
+      · rfl
+      · split
+        · rfl
+        · rw [immByClass_indep o1 o2 _ h]
+
+theorem encodeImm_same (o : Nat) (s : Instr) (h : ImmPlain s) : AddrSame (encodeImm o s) s := by
+  unfold encodeImm
+  split
+  · exact AddrSame.refl s
+  · split
+    · exact ⟨rfl, rfl, rfl, rfl, rfl, rfl⟩
+    · split
+      · exact ⟨rfl, rfl, rfl, rfl, rfl, rfl⟩
+      · rename_i hi _ _
+        rcases h with h | h
+        · rw [h] at hi; exact absurd rfl hi
+        · exact (immTruncate_same _).trans ((immByClass_same o _ h).trans (immSelectAcc_same s))
+
+/-! ### xchg, the dispatcher, encode_operands -/
+
+theorem xchgAdjust_plain (s : Instr) (h : Plain s) : Plain (xchgAdjust s) := by
+  unfold xchgAdjust
+  split
+  · dsimp only
+    have h0 := h 0 (by decide)
+    have h1 := h 1 (by decide)
+    have h2 := h 2 (by decide)
+    have h3 := h 3 (by decide)
+    split
+    · intro i hi
+      match i, hi with
+      | 0, _ => exact h1
+      | 1, _ => exact h0
+      | 2, _ => exact h2
+      | 3, _ => exact h3
+    · split
+      · intro i hi
+        match i, hi with
+        | 0, _ => exact h0
+        | 1, _ => exact h1
+        | 2, _ => exact h2
+        | 3, _ => exact h3
+      · intro i hi
+        match i, hi with
+        | 0, _ => exact h0
+        | 1, _ => exact h1
+        | 2, _ => exact h2
+        | 3, _ => exact h3
+  · exact h
+
+theorem dispatchEnc_indep (o1 o2 : Nat) (s : Instr) (h : Plain s) : dispatchEnc o1 s = dispatchEnc o2 s := by
+  unfold dispatchEnc
+  dsimp only
+  split
+  · exact encodeTwoOpds_indep o1 o2 s 1 0 (by decide) (h 0 (by decide))
+  · split
+    · exact encodeTwoOpds_indep o1 o2 s 0 1 (by decide) (h 1 (by decide))
+    · split
+      · exact encodeThreeOpds_indep o1 o2 s 0 2 1 (by decide) (h 2 (by decide))
+      · split
+        · exact encodeThreeOpds_indep o1 o2 s 0 1 2 (by decide) (h 1 (by decide))
+        · exact encodeSpecialOpd_indep o1 o2 s 0 1 (by decide) (h 0 (by decide))
+
+theorem encodeOperands_indep (o1 o2 : Nat) (s : Instr) (h : Plain s) :
+    encodeOperands o1 s = encodeOperands o2 s := by
+  unfold encodeOperands
+  dsimp only
+  apply dispatchEnc_indep
+  split
+  · exact Plain.of_same (autoSetByte_same _) (xchgAdjust_plain s h)
+  · exact xchgAdjust_plain s h
+
 end AL.Lemmas
